@@ -801,7 +801,7 @@ func (tr *FnTr) bitAnd(a, b *Term, bt *types.Basic) *Term {
 	}
 	r := tr.bitUF("band", a, b, bt)
 	if !signed {
-		tr.vc.Assume(And(Le(r, a), Le(r, b)))
+		tr.vc.Assume(And(Le(r, a), Le(r, b), Implies(Eq(a, b), Eq(r, a))))
 	}
 	return r
 }
